@@ -1,20 +1,16 @@
-use roto::{FileTree, List, Runtime, Val, library};
-use rvh::tracked::{LIVE0, Tr0};
-use std::sync::atomic::Ordering;
-fn live() -> i64 { LIVE0.load(Ordering::SeqCst) }
+use roto::{FileTree, Runtime};
 fn main() {
-    let lib = library! { #[clone] type Tr0 = Val<Tr0>; };
-    let rt = Runtime::from_lib(lib).unwrap();
+    let rt = Runtime::new();
     let src = std::env::args().nth(1).unwrap();
-    let mut pkg = FileTree::test_file("smoke.roto", &src, 0).compile(&rt).map_err(|e| e.to_string()).unwrap();
-    let f = pkg.get_function::<fn(List<Val<Tr0>>) -> List<Val<Tr0>>>("f").unwrap();
-    let l: List<Val<Tr0>> = List::new();
-    l.push(Val(Tr0::new())); l.push(Val(Tr0::new()));
-    println!("before {}", live());
-    let o = f.call(l.clone());
-    println!("after call {} (out len {})", live(), o.len());
-    drop(o);
-    println!("after drop out {}", live());
-    drop(l);
-    println!("end {}", live());
+    println!("{:?}", roto::verif::lex(&src));
+    match roto::verif::mir_json(FileTree::test_file("s.roto", &src, 0), &rt) {
+        Ok(j) => println!("{}", &j[..j.len().min(600)]),
+        Err(e) => { println!("spans {:?} kinds {:?}", roto::verif::report_spans(&e), roto::verif::report_kinds(&e)); return; }
+    }
+    let l = roto::verif::lower(FileTree::test_file("s.roto", &src, 0), &rt).map_err(|e| e.to_string()).unwrap();
+    let o = l.eval_main(&[("i32".into(), 5)]);
+    println!("{o:?}");
+    let mut pkg = l.codegen();
+    let f = pkg.get_function::<fn(i32) -> bool>("main").unwrap();
+    println!("{}", f.call(5));
 }
